@@ -5,5 +5,6 @@ CONSTANTS
   GraphIdempotent = TRUE
   CacheTransparent = TRUE
   SerialsMemoised = FALSE
+  ScopeFixed = TRUE
 INVARIANTS C19_SerialsStable
 CHECK_DEADLOCK FALSE
